@@ -13,7 +13,7 @@ SIGNED = {'i8', 'i16', 'i32', 'i64', 'i128', 'isize'}
 
 
 class Fn:
-    __slots__ = ('name', 'params', 'ret', 'locals', 'blocks', 'line', 'crate', 'impl', 'text_id', 'is_const')
+    __slots__ = ('name', 'params', 'ret', 'locals', 'blocks', 'line', 'crate', 'impl', 'text_id', 'is_const', 'impl_trait_full', '_parsed')
 
     def __init__(self, name, params, ret, locals_, blocks):
         self.name, self.params, self.ret, self.locals, self.blocks = name, params, ret, locals_, blocks
@@ -21,6 +21,8 @@ class Fn:
         self.crate = ''
         self.impl = None      # (trait or None, self type last segment, module path) for impl methods
         self.is_const = False
+        self.impl_trait_full = None
+        self._parsed = None
 
     def __repr__(self):
         return 'Fn(%s::%s)' % (self.crate, self.name)
@@ -299,8 +301,13 @@ class Program:
                 mm = re.match(r'^(?:unsafe\s+)?impl(?:\s*<.*?>)?\s+(.+)$', hdr)
                 trait, ty = None, (mm.group(1).strip() if mm else '?')
             ty_last = strip_generics(ty.replace('&mut ', '').replace('&', '').replace("'_ ", '')).split('::')[-1].strip()
+            if '$' in ty or ty_last == '?':
+                # macro-generated impl: take the Self type from the signature (receiver, else return type)
+                sig = f.params[0][1] if (f.params and re.match(r'^&?(mut )?[A-Z]', f.params[0][1].replace("'_ ", ''))) else f.ret
+                ty_last = strip_generics(sig.replace('&mut ', '').replace('&', '').replace("'_ ", '')).split('::')[-1].strip()
             trait_last = strip_generics(trait).split('::')[-1].strip() if trait else None
             f.impl = (trait_last, ty_last, modpath.rstrip(':'), rest)
+            f.impl_trait_full = re.sub(r'(\w+::)+', '', trait).replace(' ', '') if trait else None
             meth = rest.split('::')[0]
             self.by_last.setdefault(meth, []).append(f)
         else:
@@ -329,6 +336,11 @@ class Program:
             ty = strip_generics(ty_txt.replace('&mut ', '').replace('&', '')).split('::')[-1].strip()
             trait = strip_generics(trait_txt).split('::')[-1].strip()
             cands = [f for f in self.by_last.get(meth, []) if f.impl and f.impl[0] == trait and f.impl[1] == ty and f.impl[3] == meth]
+            if len(cands) > 1:
+                want = re.sub(r'(\w+::)+', '', trait_txt).replace(' ', '')
+                exact = [f for f in cands if f.impl_trait_full == want]
+                if exact:
+                    cands = exact
             cands = self._prefer(cands, from_crate, strip_generics(ty_txt))
             return cands[0] if cands else None
         g = strip_generics(f0)
